@@ -264,12 +264,12 @@ class Walker:
         if k == "discr":
             t = self.place(st, r["p"])
             if t[0] == "agg":
-                return ("c", "discr", ("variant", t[1], t[2]))
+                return ("c", "discr", ("variant", t[1], t[2], t[4] if len(t) > 4 else None))
             return ("discr", t, r.get("nv", -1), r.get("ety", ""))
         if k == "agg":
             ops = tuple(self.operand(st, o) for o in r["ops"])
             if "adt" in r:
-                return ("agg", r["adt"], r["variant"], ops)
+                return ("agg", r["adt"], r["variant"], ops, r.get("vi", 0))
             if "tuple" in r:
                 return ("tuple", ops)
             if "array" in r:
@@ -343,7 +343,12 @@ class Walker:
                 bb = t["t"]
                 continue
             if k == "assert":
-                st.events.append(("assert", bb, t["msg"], t["s"]))
+                cond = None
+                if "index" in t:
+                    cond = ("bounds", self.operand(st, t["index"]), self.operand(st, t["len"]))
+                elif "a" in t:
+                    cond = ("sub" if t["msg"] == "Overflow:Sub" else "ovf", self.operand(st, t["a"]), self.operand(st, t["b"]))
+                st.events.append(("assert", bb, t["msg"], t["s"], cond))
                 bb = t["t"]
                 continue
             if k == "return":
@@ -455,7 +460,7 @@ def switch_const(term):
         if isinstance(v, int):
             return v
         if isinstance(v, tuple) and v[0] == "variant":
-            return ("variant", v[1], v[2])
+            return v[3] if len(v) > 3 and v[3] is not None else None
     return None
 
 
